@@ -2,6 +2,7 @@
   C08 — not_adjacent / not_adjacent_and_not_segmenting match their graph definitions.
 -/
 import CspuzModel.Proofs.C08
+import CspuzModel.Proofs.C08Full
 namespace Cspuz.C08
 open Cspuz Cspuz.Spec
 
@@ -139,5 +140,14 @@ example : ∃ p, notSegmentingGrid 2 2 exA 4 false = .ok p ∧ Realizable 4 p ex
         rw [ex_truth]
         have : p.1 * 2 + p.2 = 3 := by omega
         simp [this]
+
+/-- The planar lemma (a discrete Jordan-curve statement), proved in Proofs/C08Planar*.lean: forest ⇒ connected by
+removing a leaf of the diagonal forest and re-routing white walks around it; connected ⇒ forest by a ray-casting parity
+function that is constant on white components but separates the two sides of any cycle. -/
+theorem C08_planar : statement_planar := Cspuz.Proofs.C08Planar.planar
+
+/-- The FULL array-form statement: for every board shape the specialised grid encoding accepts exactly the patterns of
+the explicit-graph definition on the grid graph. -/
+theorem C08_grid : statement_grid := Cspuz.Proofs.C08Full.grid_full
 
 end Cspuz.C08
